@@ -417,6 +417,11 @@ impl<'a, W: 'static, R: 'static, T: 'static> RuntimeScope<'a, W, R, T> {
                 self.eval_func_with_expressions(func, &args, rt, tail_available)
             }
             XFunction::UserFunction { template, output } => {
+                // also when a builtin hands over already-evaluated arguments: an error argument
+                // is the result (the leftmost one), the body does not run
+                if let Some(Err(e)) = args.iter().find(|a| a.is_err()) {
+                    return Ok(TailedEvalResult::Value(Err(e.clone())));
+                }
                 {
                     rt.increment_call_limit()?;
                     rt.check_timeout()?;
